@@ -3,6 +3,7 @@ import TypifyModel.Model.Render
 import TypifyModel.Model.Builder
 import TypifyModel.Model.Api
 import TypifyModel.Model.Conv
+import TypifyModel.Model.Enc
 import TypifyModel.Model.RoundTrip
 import TypifyModel.Model.Contain
 import TypifyModel.Driver.SchemaJson
@@ -307,6 +308,17 @@ def step (st : St) (line : String) : St × String :=
          (k, match ridf k with
            | some t => Json.obj [("conv", .bool (Conv.convB c.space ridf 64 s t)), ("rid", .int t)]
            | none => Json.obj [("conv", .bool false), ("rid", .null)])
+       (st, renderJson (.obj [("defs", .obj (Json.sortObj per)),
+                              ("unsupported", .arr (c.docUnsupported.map .str))]))
+     | none => (st, "no-case"))
+  | ["allenc", case] =>
+    (match st.cases.find? (fun c => c.1 == case) with
+     | some (_, c) =>
+       let ridf : String → Option Id := fun k => (c.rid.find? (fun e => e.1 == k)).map (·.2)
+       let per : List (String × Json) := c.doc.defs.map fun (k, s) =>
+         (k, match ridf k with
+           | some t => Json.obj [("enc", .bool (Enc.encB c.doc c.space ridf 64 s t)), ("frag", .bool (Enc.inFragment 64 s)), ("rid", .int t)]
+           | none => Json.obj [("enc", .bool false), ("frag", .bool (Enc.inFragment 64 s)), ("rid", .null)])
        (st, renderJson (.obj [("defs", .obj (Json.sortObj per)),
                               ("unsupported", .arr (c.docUnsupported.map .str))]))
      | none => (st, "no-case"))
